@@ -11,12 +11,12 @@ fn make_indent(value: usize) -> String {
 
 /// Makes print function from string to print
 fn fn_print(indent: usize, s: String) -> String {
-    format!("\n{}print!({:?});", make_indent(indent), s)
+    format!("\n{}print!(\"{{}}\", {:?});", make_indent(indent), s)
 }
 
 /// Makes eprint function from string to print
 fn fn_eprint(indent: usize, s: String) -> String {
-    format!("\n{}eprint!({:?});", make_indent(indent), s)
+    format!("\n{}eprint!(\"{{}}\", {:?});", make_indent(indent), s)
 }
 
 /// Makes string literal of vector from vector of `Num`
